@@ -75,3 +75,23 @@ package placement
 //@   sweep
 //@   mode nopanic=off
 //@   ensures[configured] len(conf.Users) > 0 || len(conf.Groups) > 0 ==> !f.empty
+
+// the filter's answer: a filter without entries answers with its type; otherwise the user part is asked about this
+// user, a match gives the filter's type (allow or deny); the opposite answer ("no match") is only given after EVERY
+// group of the user was put to the group part (each iteration asks exactly its own group, the loop ran to exhaustion).
+// fu/fg name the answers of the two membership tests (list or regexp).
+//@ spec abstract fu(user string) bool
+//@ spec abstract fg(group string) bool
+//@ func (filter Filter) allowUser(userObj security.UserGroup) (ok bool)
+//@   props C17
+//@   sweep
+//@   mode nopanic=off
+//@   at[askuser] call placement.Filter.filterUser#1: assert arg1 == userObj.User
+//@   at[useranswer] call placement.Filter.filterUser#1 after: assume ret == fu(userObj.User)
+//@   at[askgroup] call placement.Filter.filterGroup#1: assert arg1 == group
+//@   at[groupanswer] call placement.Filter.filterGroup#1 after: assume ret == fg(group)
+//@   loop 1: each ncalls(placement.Filter.filterGroup) == iter(ncalls(placement.Filter.filterGroup)) + 1
+//@   ensures[nofilter] filter.empty ==> ok == filter.allow
+//@   ensures[user] !filter.empty && fu(userObj.User) ==> ok == filter.allow
+//@   ensures[allgroupsasked] !filter.empty && !fu(userObj.User) && ok != filter.allow ==> ndone(1) == 1
+//@   ensures[userasked] !filter.empty ==> ncalls(placement.Filter.filterUser) == 1
